@@ -475,6 +475,9 @@ pub struct Agg {
     pub stopped_early: bool,
     /// run indices at which a worker process died (the next worker of that shard starts with fresh process state)
     pub dead: BTreeSet<u64>,
+    /// first run index of every worker process that was started (initial workers and respawns): a respawned worker first
+    /// re-executes the runs whose result lines its predecessor had not flushed yet, so its history begins a little before the death
+    pub gen_starts: BTreeSet<u64>,
 }
 
 /// Earlier runs to execute first in the same process, named by generator coordinates instead of event lists (a long history
@@ -641,6 +644,7 @@ pub fn run_sharded(scratch: &Path, scenario: &str, seed: u64, tier: Tier, indice
         sh.err = scratch.join(format!("{}.w{}.g{}.err", tag, k, sh.gen));
         sh.crumb = scratch.join(format!("{}.w{}.g{}.crumb", tag, k, sh.gen));
         let list = scratch.join(format!("{}.w{}.g{}.list", tag, k, sh.gen));
+        agg.gen_starts.insert(sh.indices[0]);
         sh.child = Some(spawn_worker(scenario, seed, tier, &sh.indices, &sh.out, &sh.err, &sh.crumb, &known_file, &list));
     }
     // poll all shards; a dead worker is attributed and its shard resumed at once
@@ -705,6 +709,7 @@ pub fn run_sharded(scratch: &Path, scenario: &str, seed: u64, tier: Tier, indice
             sh.out = scratch.join(format!("{}.w{}.g{}.out", tag, k, sh.gen));
             sh.err = scratch.join(format!("{}.w{}.g{}.err", tag, k, sh.gen));
             let list = scratch.join(format!("{}.w{}.g{}.list", tag, k, sh.gen));
+            agg.gen_starts.insert(rest[0]);
             sh.child = Some(spawn_worker(scenario, seed, tier, &rest, &sh.out, &sh.err, &sh.crumb, &known_file, &list));
             let _ = sh.pos;
         }
@@ -1013,6 +1018,7 @@ pub fn orchestrate(a: OrchArgs) -> i32 {
     let mut dropped_timeouts = 0u64;
     let n_shards = a.workers.max(1).min(indices.len().max(1)) as u64;
     let dead_runs: BTreeSet<u64> = agg.dead.clone();
+    let gen_starts: BTreeSet<u64> = agg.gen_starts.clone();
     let confirm_pass = |viols: &BTreeMap<u64, Violation>, confirmed: &mut Option<(u64, Violation, Plan)>, confirmed_prelude: &mut Vec<Plan>, dropped_timeouts: &mut u64| {
         for (&run, v) in viols.iter() {
             let plan = plan_for(info.name, a.seed, a.tier, run);
@@ -1057,14 +1063,20 @@ pub fn orchestrate(a: OrchArgs) -> i32 {
                         None => {
                             // the whole history of that worker since it was (re)started: every earlier run of the shard after
                             // the last one that killed a worker, named by generator coordinates
+                            // exactly what the worker process that executed `run` had executed before it: from the first index of
+                            // its generation (a respawn re-executes a few unflushed runs from before the death), skipping runs that
+                            // killed an earlier worker
+                            let gen_start = gen_starts.iter().rev().find(|s| **s <= run && (run - **s) % n_shards == 0).cloned().unwrap_or(run % n_shards);
                             let mut hist: Vec<u64> = vec![];
                             let mut j = run;
                             while let Some(p) = j.checked_sub(n_shards) {
                                 j = p;
-                                if dead_runs.contains(&j) || hist.len() >= 120_000 {
+                                if j < gen_start || hist.len() >= 120_000 {
                                     break;
                                 }
-                                hist.push(j);
+                                if !dead_runs.contains(&j) {
+                                    hist.push(j);
+                                }
                             }
                             hist.reverse();
                             let mut pr = PreludeRef { seed: a.seed, tier: Some(a.tier), indices: hist };
